@@ -90,6 +90,23 @@ let ovar_of s = if s = "-" then None else Some (n_of_int (int_of_string s))
 let term_of (s:string) : termex = match String.split_on_char ',' s with
   | [a;b;c] -> { t_coef = onum_of a; t_var = ovar_of b; t_exp = onum_of c } | _ -> failwith "term"
 
+(* ---- shapes:  .  |  ( <shape> <id> <shape> ) ---- *)
+let rec nat_of_int k = if k <= 0 then O else S (nat_of_int (k - 1))
+let rec int_of_nat = function O -> 0 | S m -> 1 + int_of_nat m
+let rec read_bt (ts:string list) : nat bt * string list = match ts with
+  | "." :: r -> (E, r)
+  | "(" :: r -> let (l, r) = read_bt r in
+      (match r with
+       | i :: r -> let (rt, r) = read_bt r in
+           (match r with ")" :: r -> (T (l, nat_of_int (int_of_string i), rt), r) | _ -> failwith "bt )")
+       | [] -> failwith "bt id")
+  | _ -> failwith "bt"
+let bt_of (ws:string list) : nat bt = fst (read_bt (tokens_of (String.concat " " ws)))
+let rec str_bt (t:nat bt) = match t with E -> "." | T (l, i, r) -> "(" ^ str_bt l ^ " " ^ string_of_int (int_of_nat i) ^ " " ^ str_bt r ^ ")"
+let str_calls l = String.concat " " (List.map (fun (a, d) -> string_of_int (int_of_nat a) ^ ":" ^ string_of_int (int_of_nat d)) l)
+let side_path (s:string) : side list =
+  let l = ref [] in String.iter (fun c -> match c with 'L' -> l := SL :: !l | 'R' -> l := SR :: !l | _ -> ()) s; List.rev !l
+
 let handle (line:string) : string =
   match words line with
   | "TOK" :: ex :: cps ->
@@ -180,6 +197,45 @@ let handle (line:string) : string =
        | RTokens None -> "EXC ValueError"
        | RUnit -> "-")) ops in
     String.concat " | " outs
+  | "BTVISIT" :: ord :: stop :: ws ->
+    (* visitor = logger that returns STOP on node id `stop` (-1: never) *)
+    let t = bt_of ws in
+    let st = int_of_string stop in
+    let f = logger (fun a _ -> int_of_nat a = st) in
+    let (calls, stopped) = (match ord with "pre" -> visit_pre f t O [] | "in" -> visit_in f t O [] | _ -> visit_post f t O []) in
+    (if stopped then "STOP " else "DONE ") ^ str_calls calls
+  | "BTORD" :: ord :: ws ->
+    let t = bt_of ws in
+    "OK " ^ str_calls (match ord with "pre" -> pre t O | "in" -> ino t O | _ -> post t O)
+  | "BTLIST" :: ord :: ws ->
+    let t = bt_of ws in
+    "OK " ^ String.concat " " (List.map (fun a -> string_of_int (int_of_nat a)) (to_list (match ord with "pre" -> OPre | "in" -> OIn | _ -> OPost) t))
+  | "BTFINDID" :: i :: ws ->
+    let t = bt_of ws in let k = int_of_string i in
+    (match find_id (fun a -> int_of_nat a mod 7 = k) t with Some a -> "OK " ^ string_of_int (int_of_nat a) | None -> "NONE")
+  | "BTFINDTYPE" :: i :: ws ->
+    let t = bt_of ws in let k = int_of_string i in
+    "OK " ^ String.concat " " (List.map (fun a -> string_of_int (int_of_nat a)) (find_type (fun a -> int_of_nat a mod 3 = k) t))
+  | "BTROT" :: pth :: ws ->
+    let t = bt_of ws in
+    "OK " ^ str_bt (rotate_tree t (side_path pth))
+  | "LAYOUT" :: rep :: ux :: uy :: ws ->
+    (* repeated layout() calls on the same nodes; coordinates id:x:y in in-order, then bounds *)
+    let t = bt_of ws in
+    let q_of s = (match num_of_string s with NFlt q -> q | NInt z -> { qnum = z; qden = XH } | NNonFinite -> failwith "q") in
+    let ux = q_of ux and uy = q_of uy in
+    let str_q (q:q) = let q = qred q in str_z q.qnum ^ "/" ^ str_pos q.qden in
+    let st = ref [] in
+    let outs = ref [] in
+    for _ = 1 to int_of_string rep do
+      let (s', c) = layout t !st in
+      st := s';
+      let b = measure_bounds ux uy c in
+      let cs = String.concat " " (List.map (fun ((i, x), d) ->
+        string_of_int (int_of_nat i) ^ ":" ^ str_q (qmult x ux) ^ ":" ^ str_q (qmult { qnum = z_of_int (int_of_nat d); qden = XH } uy)) c) in
+      outs := (cs ^ " ; " ^ str_q b.minX ^ " " ^ str_q b.maxX ^ " " ^ str_q b.minY ^ " " ^ str_q b.maxY) :: !outs
+    done;
+    String.concat " | " (List.rev !outs)
   | "MAKETERM" :: c :: v :: e :: [] ->
     (match make_term (num_of_string c) (ovar_of v) (onum_of e) with Some t -> "OK " ^ str_expr t | None -> "NONE")
   | _ -> "?"
